@@ -23,7 +23,8 @@ use self::{
 pub struct RuntimeData {
     pub(crate) value_stack: ValueStack,
     pub(crate) call_stack: BoundedStack<CallFrame>,
-    pub(crate) global_vars: Vec<Value>,
+    /// `None`: the variable has not been set (yet)
+    pub(crate) global_vars: Vec<Option<Value>>,
     pub(crate) memory: AllocProxy,
     pub(crate) object_list: Vec<NonNull<CaoLangObject>>,
     pub(crate) current_program: *const CaoCompiledProgram,
@@ -318,7 +319,7 @@ impl RuntimeData {
             }
         }
         // mark globals
-        for val in self.global_vars.iter() {
+        for val in self.global_vars.iter().flatten() {
             if let Value::Object(mut t) = val {
                 unsafe {
                     let t = t.as_mut();
